@@ -41,11 +41,26 @@ func run(spec *gen.Type, f func(ptr any) error) (o outcome) {
 
 type failf func(format string, args ...any)
 
+// prepFn builds one call of a route from scratch: the function that unmarshals the
+// (same) document into the pointer it is given, and the input value trees it hands to
+// the unmarshaller (so that they can be scribbled over afterwards).
+type prepFn func() (call func(ptr any) error, inputs []any)
+
+// bytesRoute is a route whose input is a document text.
+func bytesRoute(text string, f func(content []byte, ptr any) error) prepFn {
+	return func() (func(ptr any) error, []any) {
+		b := []byte(text)
+		return func(p any) error { return f(b, p) }, []any{b}
+	}
+}
+
 // judge applies the three clauses of the statement to one (type, input, route) run.
 // expect=false drops the generator's accept/reject expectation (used where a format
 // converter re-spelled the numbers); the result oracle and "no panic" always apply.
 func judge(fatal failf, st *verifkit.Stats, spec *gen.Type, in *gen.Input, route string,
-	docs map[string]map[string]any, expect bool, o outcome) {
+	docs map[string]map[string]any, expect bool, prep prepFn) {
+	call, inputs := prep()
+	o := run(spec, call)
 	head := func() string {
 		return fmt.Sprintf("route=%s mode=%s\n  type:  %s\n  input: %s", route, in.Mode, spec, renderDocs(docs))
 	}
@@ -70,7 +85,29 @@ func judge(fatal failf, st *verifkit.Stats, spec *gen.Type, in *gen.Input, route
 	if expect && in.MustReject {
 		fatal("C08 VIOLATED: accepted an input that breaks exactly one constraint (%s)\n%s\n  target: %+v",
 			in.What, head(), o.target.Elem().Interface())
+		return
 	}
+	// result independence: the same document again, after the first result and the
+	// input have been overwritten by their owner
+	again, _ := prep()
+	msg, sc, iw := gen.Independence(spec, docs, o.target, inputs, again)
+	countIndependence(st, route, sc, iw)
+	if msg != "" {
+		fatal("C08 (the target holds exactly the supplied values with defaults filled for the absent ones) VIOLATED: %s\n%s",
+			msg, head())
+	}
+}
+
+// countIndependence records whether the case gave the independence clause something
+// to bite on: memory behind a reference (slice elements, map entries, pointees).
+func countIndependence(st *verifkit.Stats, route string, sc gen.ScribbleStats, inputWrites int) {
+	if sc.Refs > 0 {
+		st.Class("indep:" + route + ":refs-scribbled")
+	} else {
+		st.Class("indep:" + route + ":scalars-only")
+	}
+	st.ClassN("indep:ref-writes", sc.Refs)
+	st.ClassN("indep:input-writes", inputWrites)
 }
 
 func renderDocs(docs map[string]map[string]any) string {
@@ -82,7 +119,7 @@ func renderDocs(docs map[string]map[string]any) string {
 func exclusions(st *verifkit.Stats) gen.GenConfig {
 	kf := verifkit.KnownFindings("C08")
 	cfg := gen.GenConfig{Exclude: map[string]bool{}, OnExcluded: st.Excluded}
-	for _, id := range []string{"D9a", "D9b", "D9c"} {
+	for _, id := range []string{"D9a", "D9b", "D9c", "N3", "N4"} {
 		if kf[id] {
 			cfg.Exclude[id] = true
 		}
@@ -115,15 +152,15 @@ func jsonRoutes(fatal failf, st *verifkit.Stats, spec *gen.Type, in *gen.Input, 
 	text := gen.RenderJSON(doc)
 
 	// 1. JSON body
-	judge(fatal, st, spec, in, "json", docs, true, run(spec, func(p any) error {
-		return mapping.UnmarshalJsonBytes([]byte(text), p)
+	judge(fatal, st, spec, in, "json", docs, true, bytesRoute(text, func(b []byte, p any) error {
+		return mapping.UnmarshalJsonBytes(b, p)
 	}))
 
 	// 2. parameter map with Go values of the fields' own types
-	native := gen.NativeDoc(spec, doc)
-	judge(fatal, st, spec, in, "native", docs, true, run(spec, func(p any) error {
-		return mapping.UnmarshalJsonMap(native, p)
-	}))
+	judge(fatal, st, spec, in, "native", docs, true, func() (func(any) error, []any) {
+		native := gen.NativeDoc(spec, doc)
+		return func(p any) error { return mapping.UnmarshalJsonMap(native, p) }, []any{native}
+	})
 
 	// 3. configuration loader (lower-cases keys, canonical-key code path)
 	confText := text
@@ -142,12 +179,16 @@ func jsonRoutes(fatal failf, st *verifkit.Stats, spec *gen.Type, in *gen.Input, 
 	}
 	// the loader matches keys case-insensitively: the oracle reads the folded document
 	if folded, ok := gen.FoldDoc(spec, doc); ok {
-		judge(fatal, st, spec, in, "conf", map[string]map[string]any{"json": folded}, true, run(spec, func(p any) error {
-			return conf.LoadFromJsonBytes([]byte(confText), p)
-		}))
+		judge(fatal, st, spec, in, "conf", map[string]map[string]any{"json": folded}, true,
+			bytesRoute(confText, func(b []byte, p any) error { return conf.LoadFromJsonBytes(b, p) }))
 	} else {
 		st.Class("conf:ambiguous-keys")
 	}
+
+	// 3b. conf.FillDefault (fill-default mode, no document): outside the quantifier for
+	// validation, but it hands out the same defaults: no panic, declared defaults held,
+	// and independent results
+	fillDefaultRoute(fatal, st, spec)
 
 	// 4. YAML body: the JSON text is YAML; the oracle reads what the converter delivers
 	if conv, err := encoding.YamlToJson([]byte(text)); err == nil {
@@ -158,7 +199,7 @@ func jsonRoutes(fatal failf, st *verifkit.Stats, spec *gen.Type, in *gen.Input, 
 					st.Class("yaml:lossless")
 				}
 				judge(fatal, st, spec, in, "yaml", map[string]map[string]any{"json": m}, lossless,
-					run(spec, func(p any) error { return mapping.UnmarshalYamlBytes([]byte(text), p) }))
+					bytesRoute(text, func(b []byte, p any) error { return mapping.UnmarshalYamlBytes(b, p) }))
 			}
 		}
 	} else {
@@ -175,12 +216,43 @@ func jsonRoutes(fatal failf, st *verifkit.Stats, spec *gen.Type, in *gen.Input, 
 						st.Class("toml:lossless")
 					}
 					judge(fatal, st, spec, in, "toml", map[string]map[string]any{"json": m}, lossless,
-						run(spec, func(p any) error { return mapping.UnmarshalTomlBytes([]byte(toml), p) }))
+						bytesRoute(toml, func(b []byte, p any) error { return mapping.UnmarshalTomlBytes(b, p) }))
 				}
 			}
 		} else {
 			st.Class("toml:unconvertible")
 		}
+	}
+}
+
+func fillDefaultRoute(fatal failf, st *verifkit.Stats, spec *gen.Type) {
+	o := run(spec, func(p any) error { return conf.FillDefault(p) })
+	if o.panicked != nil {
+		fatal("C08 (no input makes the unmarshaller panic) VIOLATED: conf.FillDefault panicked: %v\n  type: %s", o.panicked, spec)
+		return
+	}
+	if o.err != nil {
+		st.Class("filldefault:rejected")
+		return
+	}
+	st.Class("filldefault:accepted")
+	if msgs := gen.CheckDefaults(spec, o.target); len(msgs) > 0 {
+		fatal("C08 (defaults filled for the absent ones) VIOLATED by conf.FillDefault:\n  %s\n  type: %s\n  target: %+v",
+			strings.Join(msgs, "\n  "), spec, o.target.Elem().Interface())
+		return
+	}
+	saved := gen.DeepCopy(o.target.Elem())
+	sc := gen.Scribble(o.target.Elem())
+	defer sc.Undo()
+	countIndependence(st, "filldefault", sc, 0)
+	o2 := run(spec, func(p any) error { return conf.FillDefault(p) })
+	if o2.panicked != nil || o2.err != nil {
+		fatal("C08 VIOLATED: second conf.FillDefault on a fresh target failed: %v %v\n  type: %s", o2.panicked, o2.err, spec)
+		return
+	}
+	if d := gen.Same(saved, o2.target.Elem()); d != "" {
+		fatal("C08 (defaults filled for the absent ones) VIOLATED: after the first result had been overwritten by its owner, conf.FillDefault fills other values: %s\n  type: %s\n  first:  %+v\n  second: %+v",
+			d, spec, saved.Interface(), o2.target.Elem().Interface())
 	}
 }
 
@@ -226,9 +298,12 @@ func TestVerifC08StrMap(t *testing.T) {
 		for i := 0; i < n; i++ {
 			in := gen.GenInput(t, spec, drawMode(t))
 			countCase(st, spec, in)
-			params, norm := gen.ParamMap(key, in.Docs[key])
+			_, norm := gen.ParamMap(key, in.Docs[key])
 			judge(t.Fatalf, st, spec, in, key, map[string]map[string]any{key: norm}, true,
-				run(spec, func(p any) error { return u.Unmarshal(params, p) }))
+				func() (func(any) error, []any) {
+					params, _ := gen.ParamMap(key, in.Docs[key])
+					return func(p any) error { return u.Unmarshal(params, p) }, []any{params}
+				})
 		}
 	})
 }
@@ -279,6 +354,20 @@ func regressions() []regress {
 			"header", `{"x-a": "1"}`, "accept"},
 		{"N2HeaderNegatedDepOther", "", gen.S(gen.FK("header", "x-a", I, "optional"), gen.FK("header", "x-b", I, "optional=!x-a")),
 			"header", `{"x-b": "2"}`, "accept"},
+		{"SliceDefaultStrings", "", gen.S(gen.F("a", gen.Slice(gen.Sc(reflect.String)), "default=[west,north,east]"), gen.F("n", I, "optional")),
+			"json", `{"n": 1}`, "accept"},
+		{"SliceDefaultInts", "", gen.S(gen.F("a", gen.Slice(gen.Ptr(gen.Sc(reflect.Int8))), "default=[1,-2]")),
+			"json", `{}`, "accept"},
+		{"SliceDefaultForm", "", gen.S(gen.FK("form", "tags", gen.Slice(gen.Sc(reflect.String)), "default=[b,a]")),
+			"form", `{}`, "accept"},
+		{"N3DefaultOnPtrToSlice", "N3", gen.S(gen.F("a", gen.Ptr(gen.Slice(gen.Sc(reflect.String))), "default=[x,y]")),
+			"json", `{}`, "accept"},
+		// N4: the order of the two rows matters (the first fills the process-wide cache);
+		// the default text is one the generators never draw (4 elements)
+		{"N4DefaultCacheBoolFirst", "N4", gen.S(gen.F("a", gen.Slice(gen.Sc(reflect.Bool)), "default=[false,true,false,true]")),
+			"json", `{}`, "accept"},
+		{"N4DefaultCacheThenString", "N4", gen.S(gen.F("a", gen.Slice(gen.Sc(reflect.String)), "default=[false,true,false,true]")),
+			"json", `{}`, "accept"},
 		{"N1NaNPassesRangeForm", "", gen.S(gen.FK("form", "a", F64, "range=[1:5]")),
 			"form", `{"a": "NaN"}`, "reject"},
 		{"N1NaNPassesRangeJsonString", "", gen.S(gen.F("a", F64, "string", "range=[1:5]")),
@@ -286,7 +375,8 @@ func regressions() []regress {
 	}
 }
 
-func runRegress(r regress) (o outcome, docs map[string]map[string]any) {
+// runRegressInto unmarshals the regression's document into ptr.
+func runRegressInto(r regress, ptr any) (error, map[string]map[string]any) {
 	d, err := gen.DecodeJSON([]byte(r.doc))
 	if err != nil {
 		panic(err)
@@ -294,14 +384,25 @@ func runRegress(r regress) (o outcome, docs map[string]map[string]any) {
 	doc := d.(map[string]any)
 	switch r.key {
 	case "json":
-		return run(r.spec, func(p any) error { return mapping.UnmarshalJsonBytes([]byte(r.doc), p) }),
-			map[string]map[string]any{"json": doc}
+		return mapping.UnmarshalJsonBytes([]byte(r.doc), ptr), map[string]map[string]any{"json": doc}
 	default:
 		params, norm := gen.ParamMap(r.key, doc)
 		u := map[string]*mapping.Unmarshaler{"form": formU, "path": pathU, "header": headerU}[r.key]
-		return run(r.spec, func(p any) error { return u.Unmarshal(params, p) }),
-			map[string]map[string]any{r.key: norm}
+		return u.Unmarshal(params, ptr), map[string]map[string]any{r.key: norm}
 	}
+}
+
+func runRegress(r regress) (o outcome, docs map[string]map[string]any) {
+	o = run(r.spec, func(p any) error {
+		var err error
+		err, docs = runRegressInto(r, p)
+		return err
+	})
+	if docs == nil { // panicked before returning
+		d, _ := gen.DecodeJSON([]byte(r.doc))
+		docs = map[string]map[string]any{r.key: d.(map[string]any)}
+	}
+	return o, docs
 }
 
 // verdict returns "" when the regression case behaves as the statement demands.
@@ -318,6 +419,11 @@ func (r regress) verdict() string {
 		if msgs := gen.Check(r.spec, docs, o.target); len(msgs) > 0 {
 			return strings.Join(msgs, "; ")
 		}
+		msg, _, _ := gen.Independence(r.spec, docs, o.target, nil, func(p any) error {
+			o2, _ := runRegressInto(r, p)
+			return o2
+		})
+		return msg
 	}
 	return ""
 }
@@ -409,6 +515,11 @@ func fixedTypes() []*gen.Type {
 		S(F("a", Slice(Ptr(Slice(I))))),
 		S(F("a", Map(Ptr(Slice(Str))))),
 		S(F("a", Map(Ptr(Map(B))))),
+		// container defaults (appended last so that the corpus indices stay valid)
+		S(F("a", Slice(Str), "default=[west,north,east]"), F("b", I, "optional")),
+		S(F("a", Slice(I8), "default=[1,-2]", "optional"), F("b", Slice(Ptr(F64)), "default=[1.5]")),
+		S(F("a", Map(Slice(Str))), F("b", Ptr(inner()), "optional")),
+		S(F("a", Ptr(Slice(Str)), "default=[x,y]")),
 	}
 }
 
@@ -429,6 +540,9 @@ func FuzzVerifC08Unmarshal(f *testing.F) {
 				skip = true
 			}
 		}
+		if kf["N3"] && ty.HasPtrSliceDefault() {
+			skip = true
+		}
 		if skip {
 			st.Excluded()
 			continue
@@ -444,10 +558,12 @@ func FuzzVerifC08Unmarshal(f *testing.F) {
 			st.Eval()
 		}
 		spec := types[int(typeIdx)%len(types)]
+		body := append([]byte(nil), data...) // the fuzz engine's buffer is never written to
+		data = append([]byte(nil), body...)
 		o := run(spec, func(p any) error { return mapping.UnmarshalJsonBytes(data, p) })
 		if o.panicked != nil {
 			t.Fatalf("C08 (no input makes the unmarshaller panic) VIOLATED: panic %v\n  type:  %s\n  input: %q",
-				o.panicked, spec, data)
+				o.panicked, spec, body)
 		}
 		if o.err != nil {
 			st.Class("rejected")
@@ -456,18 +572,25 @@ func FuzzVerifC08Unmarshal(f *testing.F) {
 		st.Class("accepted")
 		d, err := gen.DecodeJSON(data)
 		if err != nil {
-			t.Fatalf("C08: accepted a body that is not JSON: %q (%v)", data, err)
+			t.Fatalf("C08: accepted a body that is not JSON: %q (%v)", body, err)
 		}
 		doc, ok := d.(map[string]any)
 		if !ok {
-			t.Fatalf("C08: accepted a body that is not an object into a struct: %q", data)
+			t.Fatalf("C08: accepted a body that is not an object into a struct: %q", body)
 		}
 		if msgs := gen.Check(spec, map[string]map[string]any{"json": doc}, o.target); len(msgs) > 0 {
 			t.Fatalf("C08 (succeeds only if ...) VIOLATED on an accepted input:\n  %s\n  type:  %s\n  input: %q\n  target: %+v",
 				strings.Join(msgs, "\n  "), spec, data, o.target.Elem().Interface())
 		}
+		msg, sc, _ := gen.Independence(spec, map[string]map[string]any{"json": doc}, o.target, []any{data},
+			func(p any) error { return mapping.UnmarshalJsonBytes(body, p) })
+		if msg != "" {
+			t.Fatalf("C08 (the target holds exactly the supplied values with defaults filled for the absent ones) VIOLATED: %s\n  type:  %s\n  input: %q",
+				msg, spec, body)
+		}
 		if !campaign {
-			st.NonTrivial(spec.String() + " <- " + string(data))
+			countIndependence(st, "fuzz", sc, 0)
+			st.NonTrivial(spec.String() + " <- " + string(body))
 		}
 	})
 }
